@@ -234,6 +234,16 @@ var (
 	farm     *Farm
 )
 
+// Progress, when set, is called whenever the farm finished compiling something (keeps the
+// real-clock watchdog quiet during long preparations on a loaded machine).
+var Progress func()
+
+func progress() {
+	if Progress != nil {
+		Progress()
+	}
+}
+
 // TheFarm returns the process-wide farm, rooted in TMPDIR.
 func TheFarm() *Farm {
 	farmOnce.Do(func() {
@@ -272,6 +282,7 @@ func (f *Farm) CDB(g int, noKey bool) string {
 	if _, err := dcdb.CreateCDB(in, p, &dcdb.CreatorOptions{NumCPU: 1}); err != nil {
 		panic(fmt.Sprintf("compile cdb gen %d: %v", g, err))
 	}
+	progress()
 	f.cache[key] = p
 	return p
 }
@@ -293,6 +304,7 @@ func (f *Farm) RDB(g int, v2 bool, noKey bool) string {
 	if _, err := rdb.CompileToSpecificRDBVersion(in, p, opts); err != nil {
 		panic(fmt.Sprintf("compile rdb gen %d: %v", g, err))
 	}
+	progress()
 	f.cache[key] = p
 	return p
 }
